@@ -85,7 +85,7 @@ type cloneShape struct {
 	Blocks  int  `json:"blocks"`
 	Seqs    int  `json:"seqs"`
 	Actions int  `json:"actions"`
-	Checks  int  `json:"checks"` // 0 none, 1 plan pre+post, 2 block cont+deferred, 3 all ten
+	Checks  int  `json:"checks"` // 0 none, 1 plan pre+post, 2 block cont+deferred, 3 all but bypass, 4 passing bypass on block 0 (+pre), 5 passing bypass on the plan
 	PtrReq  bool `json:"ptrReq"`
 }
 
@@ -103,9 +103,17 @@ func (s cloneShape) build(failing bool) *workflow.Plan {
 	if s.Checks == 3 {
 		p.BypassChecks, p.ContChecks, p.DeferredChecks = nil, chk("p/cont"), chk("p/def")
 	}
+	if s.Checks == 5 {
+		// the check plugin answers ok, so once executed the whole plan is bypassed
+		p.BypassChecks, p.DeferredChecks = chk("p/by"), chk("p/def")
+	}
 	for bi := 0; bi < s.Blocks; bi++ {
 		bn := fmt.Sprintf("b%d", bi)
 		b := &workflow.Block{Name: bn, Descr: "d:" + bn, EntranceDelay: 0, ExitDelay: 0, Concurrency: 2, ToleratedFailures: 1}
+		if bi == 0 && s.Checks == 4 {
+			// once executed, block 0 is bypassed: Completed with untouched pre-checks and sequences
+			b.BypassChecks, b.PreChecks = chk(bn+"/by"), chk(bn+"/pre")
+		}
 		if bi == 0 && (s.Checks == 2 || s.Checks == 3) {
 			b.ContChecks, b.DeferredChecks = chk(bn+"/cont"), chk(bn+"/def")
 		}
@@ -759,7 +767,7 @@ func enumC18(env *EnumEnv, it *WorkItem) *EnumResult {
 	for blocks := 1; blocks <= 2; blocks++ {
 		for seqs := 1; seqs <= 2; seqs++ {
 			for actions := 1; actions <= 2; actions++ {
-				for checks := 0; checks <= 3; checks++ {
+				for checks := 0; checks <= 5; checks++ {
 					for _, ptr := range []bool{false, true} {
 						if env.Tier != "thorough" && ptr && (blocks == 2 || seqs == 2) {
 							continue
@@ -808,7 +816,7 @@ func init() {
 	register(&PropDef{
 		ID:    "C18",
 		Level: "exploration",
-		Rule: "plan shapes (1-2 blocks x 1-2 sequences x 1-2 actions x 4 check-group patterns, request by value and by pointer, each request holding slices, maps, pointers and secure-tagged leaves at several depths) x execution state {fresh, submitted, running, completed, failed} " +
+		Rule: "plan shapes (1-2 blocks x 1-2 sequences x 1-2 actions x 6 check-group patterns (incl. a passing bypass group on a block and on the plan, i.e. bypassed scopes once executed), request by value and by pointer, each request holding slices, maps, pointers and secure-tagged leaves at several depths) x execution state {fresh, submitted, running, completed, failed} " +
 			"(submitted/completed/failed are REAL plans produced by a Workstream over sqlite) x {keep-state} x {keep-secrets} x EVERY object of the plan as the clone target (clone.Plan/Block/Checks/Sequence/Action); " +
 			"oracle: canonical dump of the original before/after cloning and after mutating every reachable leaf of the clone, reflective search for shared pointers/slice arrays/maps, definition fields object by object, ids/state/attempts with keep-state and their absence without, and Submit of the default clone on a fresh Workstream; " +
 			"distinct_nontrivial = cases other than the default clone of a fresh plan",
